@@ -129,6 +129,21 @@ class LDMMaintenance:
                 f"Error deleting data container: {str(e)}, data_containers {len(self.data_containers.all())}")
             return False
 
+    def del_provider_data_by_id(self, data_object_id: int) -> bool:
+        """
+        Delete the data object with the given identifier.
+
+        Returns
+        -------
+        bool
+            True if the object existed and was removed.
+        """
+        try:
+            return self.data_containers.remove_by_id(data_object_id) is not False
+        except (ValueError, KeyError, json.decoder.JSONDecodeError) as e:
+            print(f"Error deleting data container: {str(e)}")
+            return False
+
     def get_all_data_containers(self) -> tuple[dict, ...]:
         """
         Method created in order to get all the data containers.
